@@ -9,7 +9,7 @@
      skid, akid, ku: "-" or number      pk: key index
      sig    k = signed by key k | k^b = then bit b flipped | k~ = signed over other bytes
      bc     "-" | ca | ca:pathlen          eku  "-" | "." | p,p,...
-     fx     "-" none | "n" non-critical future extension | "c" critical one
+     fx     "-" none | one letter per future-extensions element, in order: n non-critical, c critical (e.g. "nc")
    lines:
      V id clk us cert+                               raw verifier, leaf first
      C id clk us fabric_id root noc [icac]           CASE
@@ -49,7 +49,7 @@ let parse_cert (s : string) : cert =
       { subject = parse_dn su; issuer = parse_dn is; skid = opt_n sk; akid = opt_n ak;
         pubkey = n_of_string pk; signer = parse_sig sg;
         not_before = n_of_string nb; not_after = n_of_string na;
-        bc = parse_bc b; ku = opt_n k; eku = parse_eku e; crit_ext = (fx = "c") }
+        bc = parse_bc b; ku = opt_n k; eku = parse_eku e; crit_ext = String.contains fx 'c' }
   | _ -> failwith ("bad cert: " ^ s)
 
 let parse_clock k us : clock =
